@@ -167,6 +167,7 @@ extern long hx_alloc_seq;        /* allocations made inside libhtp in this execu
 extern int64_t hx_live_bytes;    /* live bytes allocated inside libhtp                         */
 void hx_clock_set(long sec, long usec);
 void hx_clock_add(long usec);
+void hx_note_set(const char *t);
 void *hx_real_malloc(size_t n);
 void  hx_real_free(void *p);
 
